@@ -173,7 +173,7 @@ fn check_map(l: &mut vh::Local<'_>, cfg: vh::gen::ModeCfg, spec: &vh::gen::MapSp
 
 fn main() {
     let ctx = Ctx::from_env("C16");
-    ctx.rule("case = (mode configuration, grammar map with gaps {150,400,1000,7000} and first start in {-500,0,400,1000}); per case: settings menu x every passed_objects prefix; oracle = peaks finite and >= 0; all skills of the mode have the same number of sections; at clock rate 1 the section count equals an independent count from the object times (osu!, taiko, mania); re-aggregation (drop zeros, sort descending, sum p_i*w^i with w=0.94 catch / 0.9 mania; plain sum for flashlight, then TD/RX/AP factors) reproduces stars (catch, mania) and flashlight (osu!) within relative 1e-9; non-trivial = at least one positive peak");
+    ctx.rule("case = (mode configuration, grammar map with gaps {150,400,1000,7000} and first start in {-500,0,400,1000}; plus three maps per mode configuration that check_suspicion flags: objects a day apart, 120 objects 5 ms apart, 260 objects 3 ms apart); per case: settings menu x every passed_objects prefix; oracle = peaks finite and >= 0; all skills of the mode have the same number of sections; at clock rate 1 the section count equals an independent count from the object times (osu!, taiko, mania); re-aggregation (drop zeros, sort descending, sum p_i*w^i with w=0.94 catch / 0.9 mania; plain sum for flashlight, then TD/RX/AP factors) reproduces stars (catch, mania) and flashlight (osu!) within relative 1e-9; non-trivial = at least one positive peak");
 
     // periodic longer maps first
     {
@@ -199,6 +199,27 @@ fn main() {
         ctx.universe("mania-half-keys/3to3/N<=3", per * keys.len() as u64, |idx, l| {
             let spec = gen::MapSpec { keys: keys[(idx / per) as usize], cs_tenths: 5, ..gen::MapSpec::new(3, alpha.seq(idx % per, n_max)) };
             let map = spec.decode();
+            check_map(l, cfg, &spec, &map, &menu);
+        });
+    }
+    // maps that check_suspicion flags (objects more than a day apart; far more than 100 objects inside one second) still get
+    // ratings, and those ratings must follow from the peaks returned for them
+    {
+        let o = |gap: u32, col: u8| gen::Obj { kind: gen::Kind::Circle, gap, pos: gen::PosK::Far, sound: 0, col };
+        let menu = vec![Setting::nm()];
+        let cfgs: Vec<gen::ModeCfg> = vh::gen::MODE_CFGS.to_vec();
+        ctx.universe("suspicious-maps/far-apart-and-dense", cfgs.len() as u64 * 3, |idx, l| {
+            let cfg = cfgs[(idx / 3) as usize];
+            let spec = match idx % 3 {
+                0 => gen::MapSpec::new(cfg.src, vec![o(0, 0), o(150, 1), o(90_000_000, 0), o(150, 1)]),
+                1 => gen::MapSpec { stream: (120, 5), ..gen::MapSpec::new(cfg.src, vec![o(0, 0)]) },
+                _ => gen::MapSpec { stream: (260, 3), ..gen::MapSpec::new(cfg.src, vec![o(0, 0)]) },
+            };
+            let map = spec.decode();
+            if map.check_suspicion().is_ok() {
+                l.ctx.machinery_error(format!("suspicious-maps case {idx} is not flagged by check_suspicion"));
+                return;
+            }
             check_map(l, cfg, &spec, &map, &menu);
         });
     }
